@@ -418,15 +418,34 @@ def _scenario_signature(name, r, known):
     return f"C02:scenario:{name}:other-difference:j1={j1['cls']}:j2={j2['cls']}"
 
 
-def _e3_signature(r, kind, sched):
-    """Signature of a difference found by an E3 family.  The deferplan family knows one cause by its
-    circumstances: the two workers declare the same file static (a conflict under -j1) and, in the
-    differing schedule, a request arrived while its issuer was detached."""
-    if r["item"][0] == "deferplan" and kind == "rc-class" and r["meta"].get("requests") == ["static", "static"]:
+def _graph_diff_site(detail):
+    """Where two canonical graphs differ: 'step.inp_digest', 'file.digest+step.state', 'nodes' ..."""
+    if not isinstance(detail, dict):
+        return "?"
+    sites = set()
+    for key, v in detail.items():
+        a, b = (v or {}).get("j1"), (v or {}).get("other")
+        kind = str(key).split(":", 1)[0]
+        if not a or not b:
+            sites.add(f"{kind}.presence")
+            continue
+        for part in ("props", "rel"):
+            pa, pb = a.get(part) or {}, b.get(part) or {}
+            for k in set(pa) | set(pb):
+                if pa.get(k) != pb.get(k):
+                    sites.add(f"{kind}.{k}")
+    return "+".join(sorted(sites)) or "?"
+
+
+def _e3_signature(r, kind, sched, detail=None):
+    """Signature of a difference found by an E3 family: the known causes by their CIRCUMSTANCES (read off
+    the harness' clock, per schedule and per step label), everything else with family and differing site."""
+    fam = r["item"][0]
+    prof = (r.get("profiles") or {}).get(sched) or {}
+    if fam == "deferplan" and kind == "rc-class" and r["meta"].get("requests") == ["static", "static"]:
         by = r.get("by_schedule") or {}
-        prof = (r.get("profiles") or {}).get(sched) or {}
-        # the cause is established by the harness' clock: which step had a request ACCEPTED / completed
-        # between the restart of its creator and the creator's define_step that attaches it again
+        # which step had a request ACCEPTED / completed between the restart of its creator and the
+        # creator's define_step that attaches it again
         req = sorted(k.split(":", 1)[1] for k in prof if k.startswith("detached-request:"))
         end = sorted(k.split(":", 1)[1] for k in prof if k.startswith("detached-completion:"))
         refused = (by.get(sched) or ["", [], []])[2]
@@ -439,7 +458,15 @@ def _e3_signature(r, kind, sched):
             if other == "DRAINED" and refused and set(refused) <= set(req) | set(end):
                 # the refused worker was detached when it asked or when it completed: its failure is not counted
                 return "C02:noncommute:detached-issuer:failed-vs-pending"
-    return f"C02:e3:{kind}"
+    site = _graph_diff_site(detail) if kind in ("graph", "graph-digests") else ""
+    if kind == "graph-digests" and site == "step.inp_digest":
+        # the stored step hash of a step that completed successfully while one of its amended inputs was
+        # detached (a creator above the input's producer was running again) leaves that input out
+        steps = sorted(str(k).split(":", 1)[1] for k in detail)
+        done = {k.split(":", 1)[1] for k in prof if k.startswith("detached-input-completion:")}
+        if steps and set(steps) <= done:
+            return "C02:noncommute:detached-input-at-completion"
+    return f"C02:e3:{kind}:{fam}" + (f":{site}" if site else "")
 
 
 def oracle(ctx):
@@ -567,6 +594,32 @@ def oracle(ctx):
                                      "j1": {k: v for k, v in di["j1"].items() if k != "graph"},
                                      name: {k: v for k, v in di[name].items() if k != "graph"}})
             break
+    # ---- a worker that completes while an amended input is detached (a creator above its producer runs again)
+    dc = b3.run_detached_input_completion_scenario()
+    ctx.case(("scenario", "detached_input_completion"), nontrivial=True)
+    a, b, c = dc["j1"], dc["j2-completes-while-detached"], dc["j2-completes-after"]
+    ctx.count(f"scenario:detached_input_completion:control={'same' if c['worker'] == a['worker'] else 'DIFFERENT'}:"
+              f"while-detached={'same' if b['worker'] == a['worker'] else 'different-inp_digest'}")
+    def _same(x, y, digests=True):
+        return (x["cls"] == y["cls"] and x["files"] == y["files"] and x["graph_without_digests"] == y["graph_without_digests"]
+                and (not digests or x["worker"] == y["worker"]))
+    slim = lambda d: {k: v for k, v in d.items() if k not in ("graph_without_digests", "files")}  # noqa: E731
+    wit = {"kind": "detached-input-completion-scenario", "project": dc["project"], "edit": dc["edit"],
+           "j1": slim(a), "j2-completes-while-detached": slim(b), "j2-completes-after": slim(c)}
+    if a["first"] != "ok" or not _same(a, c):
+        ctx.add_failure("oracle", "scenario:detached_input_completion", "C02:scenario:detached_input_completion:control",
+                        "the control schedule (the worker completes after the re-definition) differs from -j1", witness=wit)
+    elif not _same(a, b):
+        own = (_same(a, b, digests=False) and b["completed_while_input_detached"] == ["./u.py"]
+               and (a["worker"] or {}).get("out_digest") == (b["worker"] or {}).get("out_digest"))
+        ctx.add_failure("oracle", "scenario:detached_input_completion",
+                        "C02:noncommute:detached-input-at-completion" if own else
+                        "C02:scenario:detached_input_completion:other-difference",
+                        "second build: the worker ./u.py amends o.txt (accepted), the nested script above o.txt's "
+                        "producer is dispatched again (o.txt detached), the worker completes, the producer is defined "
+                        f"again: stored inp_digest {(b['worker'] or {}).get('inp_digest')} versus "
+                        f"{(a['worker'] or {}).get('inp_digest')} under -j1 (same files, same edges, same out_digest)",
+                        witness=wit)
     # ---- error text of a volatile output versus an input, at system level
     r = b3.run_text_scenario()
     ctx.case(("scenario", "volatile_vs_input_text"), nontrivial=True)
@@ -591,6 +644,7 @@ MUST_REACH = [
     "creator-reruns:request-while-detached", "creator-reruns:completion-while-detached",
     "creator-reruns:started-before-creator-start:stopped-after-creator-stop",
     "hash-commit:between-declarations", "hash-commit:next-to-another-hash-commit",
+    "input:amend-while-input-detached",
 ]
 
 
@@ -658,7 +712,7 @@ def _e3_schedules(ctx):
             ctx.count(f"e3:interleaving:{fam}:{k}", v)
             reached[k] = reached.get(k, 0) + v
         for kind, sched, detail in r["diffs"]:
-            ctx.add_failure("oracle", "e3-schedules", _e3_signature(r, kind, sched),
+            ctx.add_failure("oracle", "e3-schedules", _e3_signature(r, kind, sched, detail),
                             f"project {r['item']} differs between schedule j1 and {sched}: {kind}",
                             witness={"kind": "e3-case", "item": list(r["item"]), "schedule": sched,
                                      "detail": detail, "project": r["project"]})
@@ -733,7 +787,13 @@ def replay(ctx, obj):
     if w.get("kind") == "e3-case":
         r = b3.run_case(tuple(w["item"]))
         for kind, sched, detail in r.get("diffs", []):
-            ctx.add_failure("oracle", "e3-schedules", _e3_signature(r, kind, sched), f"{sched}: {kind}", witness=w)
+            ctx.add_failure("oracle", "e3-schedules", _e3_signature(r, kind, sched, detail), f"{sched}: {kind}", witness=w)
+        return
+    if w.get("kind") == "detached-input-completion-scenario":
+        dc = b3.run_detached_input_completion_scenario()
+        if dc["j1"]["worker"] != dc["j2-completes-while-detached"]["worker"]:
+            ctx.add_failure("oracle", "scenario:detached_input_completion", "C02:noncommute:detached-input-at-completion",
+                            "the worker's stored inp_digest differs between -j1 and the directed -j2 schedule", witness=w)
         return
     if w.get("kind") == "detached-input-scenario":
         di = b3.run_detached_input_scenario()
